@@ -256,7 +256,7 @@ class AggSuite(Suite):
     nontrivial_rule = "at least 2 sources and at least 3 values consumed, or an asynchronous completion, exception or early destruction"
 
     def gen_cases(self, rng, tier):
-        n = 700 if tier == "quick" else 24000
+        n = 6000 if tier == "quick" else 500000
         cases = []
         for i in range(n):
             r = rng.random()
